@@ -37,6 +37,13 @@ def _is_reset_value(v):
     return False
 
 
+def _mentions(test, fn, field):
+    """the test reads self.<field>, directly or through a local bound to it (`cache = self._f`)"""
+    aliases = {t.id for st in ast.walk(fn) if isinstance(st, ast.Assign) and _is_self_attr(st.value, field)
+               for t in st.targets if isinstance(t, ast.Name)}
+    return any(_is_self_attr(x, field) or (isinstance(x, ast.Name) and x.id in aliases) for x in ast.walk(test))
+
+
 def _under_own_test(fn, node, field):
     """node sits in an `if` whose test mentions self.<field>"""
     def rec(cur, guards):
@@ -51,7 +58,7 @@ def _under_own_test(fn, node, field):
                 return r
         return None
     guards = rec(fn, []) or []
-    if any(_is_self_attr(x, field) for t in guards for x in ast.walk(t)):
+    if any(_mentions(t, fn, field) for t in guards):
         return True
     # early-return idiom: an earlier statement of an enclosing block is `if <test on self.field>: return ...`
     def blocks(cur, path):
@@ -65,7 +72,7 @@ def _under_own_test(fn, node, field):
     for before in blocks(fn, []):
         for st in before:
             if isinstance(st, ast.If) and not st.orelse and st.body and isinstance(st.body[-1], ast.Return) and \
-                    any(_is_self_attr(x, field) for x in ast.walk(st.test)):
+                    _mentions(st.test, fn, field):
                 return True
     return False
 
@@ -77,8 +84,65 @@ def _family(prog, cls_q):
     return sorted(set(mro) | set(prog.subclasses(root)))
 
 
+def _is_reset_stmt(st, field):
+    if isinstance(st, ast.Assign) and _is_reset_value(st.value):
+        for t in st.targets:
+            if _is_self_attr(t, field):
+                return True
+            if isinstance(t, ast.Subscript) and any(_is_self_attr(x, field) for x in ast.walk(t.value)):
+                return True                      # a slot of a memo box set back to None
+    if isinstance(st, ast.Expr) and isinstance(st.value, ast.Call) and isinstance(st.value.func, ast.Attribute) and \
+            st.value.func.attr == "clear" and _is_self_attr(st.value.func.value, field):
+        return True
+    return False
+
+
+def _state_writes(fn, field):
+    """statements of the method that write some other attribute of self (assignment, del, or a mutating call on it)"""
+    out = []
+    for st in ast.walk(fn):
+        if isinstance(st, (ast.Assign, ast.AugAssign, ast.Delete)):
+            targets = st.targets if isinstance(st, (ast.Assign, ast.Delete)) else [st.target]
+            for t in targets:
+                base = t
+                while isinstance(base, ast.Subscript):
+                    base = base.value
+                if isinstance(base, ast.Attribute) and isinstance(base.value, ast.Name) and base.value.id == "self" and \
+                        base.attr != field:
+                    out.append(st)
+        elif isinstance(st, ast.Expr) and isinstance(st.value, ast.Call) and isinstance(st.value.func, ast.Attribute) and \
+                st.value.func.attr in ("add", "append", "remove", "discard", "pop", "update", "clear", "insert", "extend",
+                                       "setdefault", "popitem"):
+            base = st.value.func.value
+            while isinstance(base, ast.Subscript):
+                base = base.value
+            if isinstance(base, ast.Attribute) and isinstance(base.value, ast.Name) and base.value.id == "self" and \
+                    base.attr != field:
+                out.append(st)
+    return out
+
+
+def _accompanied(fn, stmt, field):
+    """a reset sits in the block of `stmt` or in one of its enclosing blocks"""
+    def rec(cur):
+        for fieldname in ("body", "orelse", "finalbody", "handlers"):
+            blk = getattr(cur, fieldname, None)
+            if isinstance(blk, list):
+                for st in blk:
+                    if st is stmt or any(x is stmt for x in ast.walk(st)):
+                        if any(_is_reset_stmt(o, field) for o in blk):
+                            return True
+                        return rec(st) if st is not stmt else False
+        return False
+    return rec(fn)
+
+
 def _resets(prog, cls_q, fi, field, depth=0) -> bool:
-    """the method resets self.<field> by a top-level statement (or a top-level call that does)"""
+    """the method resets self.<field>: by a top-level statement (or a top-level call that does), or next to every
+    statement in which it writes other state of the object (resets inside the branches that actually change something)"""
+    writes = _state_writes(fi.node, field)
+    if depth == 0 and writes and all(_accompanied(fi.node, w, field) for w in writes):
+        return True
     stmts = []
     for st in fi.node.body:
         stmts.append(st)
